@@ -207,19 +207,17 @@ pub fn add_raw(sh: &shell::Shell, line: &str, status: i32,
             return;
         }
     };
+    // values are bound, never pasted into the statement: quotes in the
+    // command line or in the directory name must not break (or alter) it.
     let sql = format!(
         "INSERT INTO \
          {} (inp, rtn, tsb, tse, sessionid, info) \
-         VALUES('{}', {}, {}, {}, '{}', 'dir:{}|');",
-        history_table,
-        str::replace(line.trim(), "'", "''"),
-        status,
-        tsb,
-        tse,
-        sh.session_id,
-        sh.current_dir,
+         VALUES(?1, ?2, ?3, ?4, ?5, ?6);",
+        history_table
     );
-    match conn.execute(&sql, []) {
+    let info = format!("dir:{}|", sh.current_dir);
+    let params = rusqlite::params![line.trim(), status, tsb, tse, sh.session_id, info];
+    match conn.execute(&sql, params) {
         Ok(_) => {}
         Err(e) => println_stderr!("cicada: history: save error: {}", e),
     }
